@@ -54,7 +54,7 @@ def main():
             meta["demo_clean_rc"] = c0.returncode
             ap_ = sh("git -C %s apply --whitespace=nowarn %s" % (wt, diff))
             if ap_.returncode:
-                ap_ = sh("cd %s && patch -p1 -s --fuzz=3 < %s" % (wt, diff))
+                ap_ = sh("cd %s && patch -p1 -s --fuzz=0 < %s" % (wt, diff))
             meta["applies"] = ap_.returncode == 0
             if not meta["applies"]:
                 meta["apply_error"] = (ap_.stderr or ap_.stdout)[-300:]
